@@ -88,7 +88,7 @@ fn format_variant(
             make_string_literal(&variant.ident.unraw().to_string(), variant.ident.span())
         }
         (None, Some(rn)) => make_string_literal(
-            &rn.apply(&variant.ident.unraw().to_string()),
+            &rn.apply_to_variant(&variant.ident.unraw().to_string()),
             variant.ident.span(),
         ),
     };
